@@ -1155,6 +1155,358 @@ def stream_entrypoints(chk, i, rng):
         chk.sample({"stream": "entrypoints", **{k: v for k, v in replay.items() if k != "X"}, "entry_points": sorted(results["named"])})
 
 
+# ------------------------------------------------------------------ round-3 streams: representations, corners, decorated routes
+# Misbehaviour of the UNCHANGED tree at the new corners, reported to the coordinator (who decides fix / known finding / out of
+# scope).  Until then these exact call classes are recorded as observations in the evidence notes, not as failures.
+OBSERVED = [
+    (r"repr:Kauri\.(fit|fit_predict|score):y-(int64|int32|float32|bool)$",
+     "Kauri(kernel='precomputed').fit / fit_predict / score(X, K) with K of dtype int64 / int32 / float32 raises ValueError('Buffer dtype mismatch, expected float64_t'); "
+     "the same values as float64 work (the GEMINI route accepts these dtypes)"),
+    (r"repr:Kauri\.score:y-read-only$",
+     "Kauri(kernel='precomputed').fit(X, K).score(X, K_readonly) raises ValueError('buffer source array is read-only') although fit(X, K_readonly) works"),
+    (r"repr:Kauri\.score:X-float32$",
+     "Kauri(kernel=<name>).fit(X).score(X.astype(float32)) raises ValueError('Buffer dtype mismatch'): score computes the kernel on the raw float32 X"),
+    (r"repr:Sparse(Linear|MLP)(MMD|Model)\.path:y-(list|tuple)$",
+     "Sparse*(kernel='precomputed').path(X, K.tolist()) raises TypeError('list indices must be integers or slices, not tuple') in compute_val_score although fit(X, K.tolist()) works"),
+]
+
+
+def observe_or_fail(chk, key, what, replay, layer="L3"):
+    import re
+    for pat, desc in OBSERVED:
+        if re.match(pat, key):
+            note = f"observation (unchanged tree, reported): {desc}"
+            if note not in chk.notes:
+                chk.notes.append(note)
+            chk.dist["observed:" + pat[:40]] += 1
+            return
+    chk.fail(key, what, replay, layer=layer)
+
+
+def representations(arr):
+    """(label, object, float32?) : the same values in other representations."""
+    arr = np.ascontiguousarray(np.asarray(arr, dtype=np.float64))
+    out = []
+    if np.array_equal(arr, np.round(arr)) and np.all(np.abs(arr) < 2 ** 30):
+        out += [("int64", arr.astype(np.int64)), ("int32", arr.astype(np.int32))]
+        if np.all((arr == 0) | (arr == 1)):
+            out.append(("bool", arr.astype(bool)))
+    if np.array_equal(arr.astype(np.float32).astype(np.float64), arr):
+        out.append(("float32", arr.astype(np.float32)))
+    out.append(("fortran", np.asfortranarray(arr.copy())))
+    big = np.full((2 * arr.shape[0], arr.shape[1] + 1), 7.25)
+    big[::2, :-1] = arr
+    out.append(("strided-view", big[::2, :-1]))
+    out.append(("negative-stride-view", np.ascontiguousarray(arr[::-1, ::-1])[::-1, ::-1]))
+    ro = arr.copy()
+    ro.setflags(write=False)
+    out.append(("read-only", ro))
+    out.append(("list", arr.tolist()))
+    out.append(("tuple", tuple(tuple(r) for r in arr.tolist())))
+    return out
+
+
+def snapshot(v):
+    return v.copy() if isinstance(v, np.ndarray) else json.dumps(v, default=str)
+
+
+def unchanged(before, v):
+    if isinstance(v, np.ndarray):
+        return v.dtype == before.dtype and v.shape == before.shape and v.tobytes() == before.tobytes()
+    return json.dumps(v, default=str) == before
+
+
+def observe(fn):
+    """Run an entry point: ('ok', flat list of arrays) or (exception class name, message)."""
+    with warnings.catch_warnings():
+        warnings.simplefilter("ignore")
+        try:
+            r = fn()
+        except Exception as e:  # noqa: every exception kind is an observation to compare with the reference
+            return (type(e).__name__, str(e)[:120])
+    r = r if isinstance(r, (list, tuple)) else [r]
+    return ("ok", [np.asarray(v, dtype=float) for v in r])
+
+
+def agree(ref, got, tol):
+    if ref[0] != "ok" or got[0] != "ok":
+        return ref[0] == got[0]
+    return len(ref[1]) == len(got[1]) and all(close(a, b, tol)[1] for a, b in zip(ref[1], got[1]))
+
+
+def entry_calls(name, cfg, kw, d):
+    """Public entry points of one configured estimator, as functions of (X, y)."""
+    def new():
+        return impl.make(name, **cfg, **kw)
+
+    def fit(X, y):
+        e = new().fit(X, y)
+        w = e._get_weights() if hasattr(e, "_get_weights") else [np.asarray(vars(e.tree_)[k], dtype=object) == None for k in ("thresholds",)]  # noqa: E711
+        extra = [] if hasattr(e, "_get_weights") else [np.array([t if t is not None else np.nan for t in e.tree_.thresholds], dtype=float),
+                                                       np.array([t if t is not None else -1 for t in e.tree_.features], dtype=float)]
+        return list(w) + extra + [e.labels_]
+    calls = {"fit": fit, "fit_predict": lambda X, y: new().fit_predict(X, y)}
+
+    def fitted_calls(Xref, yref):
+        e = new().fit(Xref, yref)
+        c = {"score": lambda X, y: e.score(X, y), "predict": lambda X, y: e.predict(X)}
+        if hasattr(e, "predict_proba"):
+            c["predict_proba"] = lambda X, y: e.predict_proba(X)
+        return c
+    if name in impl.SPARSE:
+        def path(X, y):
+            r = new().path(X, y, alpha_multiplier=3.0, min_features=max(1, d - 1), max_patience=1)
+            return list(r[0]) + [np.asarray(v, dtype=float) for v in r[1:]]
+        calls["path"] = path
+    return calls, fitted_calls
+
+
+def grid_data(rng, n, d, integral):
+    X = rng.integers(-4, 5, size=(n, d)).astype(float)
+    if not integral:
+        X = X + rng.integers(-3, 4, size=(n, d)) / 8.0
+    return X
+
+
+def stream_repr(chk, i, rng):
+    """Same values, other representation (dtype, memory order, view, read-only, list): same answer, no new exception,
+    caller's arrays untouched - through compute_affinity, gemini(P, A), fit, fit_predict, score, predict*, path."""
+    pool = ["gemini:MMD", "gemini:Wasserstein", "LinearMMD", "MLPWasserstein", "Kauri", "SparseLinearMMD", "KernelRIM", "CategoricalMMD",
+            "Kauri", "SparseMLPMMD", "LinearWasserstein", "Douglas"]
+    name = pool[i % len(pool)]
+    integral = rng.random() < 0.5
+    n, d = int(rng.integers(6, 12)), int(rng.integers(2, 4))
+    X = grid_data(rng, n, d, integral)
+    wass = "Wasserstein" in name or name == "Douglas"
+    fn = str(rng.choice(["cityblock", "euclidean", "chebyshev"] if wass else ["linear", "polynomial", "rbf"]))
+    if fn == "chebyshev":
+        fn = "l1"
+    ps = {"gamma": 0.5} if fn in ("rbf", "polynomial") and name != "Kauri" else None
+    f = pairwise_distances if wass else pairwise_kernels
+    K = np.round(f(X, metric=fn, **(ps or {})) * 8) / 8 if integral or rng.random() < 0.5 else f(X, metric=fn, **(ps or {}))
+    K = (K + K.T) / 2
+    spelling = "precomputed" if rng.random() < 0.5 and name != "KernelRIM" else "named"
+    fa, pa = ("metric", "metric_params") if wass else ("kernel", "kernel_params")
+    y = K if spelling == "precomputed" else None
+    seed = int(rng.integers(0, 100))
+    replay = {"target": name, "spelling": spelling, "fn": fn, "params": repr(ps), "integral": integral, "seed": seed, "X": X.tolist(),
+              "K": K.tolist() if y is not None else None}
+    calls = {}
+    if name.startswith("gemini:"):
+        gcls = G.WassersteinGEMINI if wass else G.MMDGEMINI
+        g = gcls(ovo=bool(rng.integers(0, 2)), **({fa: "precomputed"} if spelling == "precomputed" else {fa: fn, pa: ps}))
+        P = impl.softmax_rows(rng.normal(size=(n, 3)))
+        if rng.random() < 0.3:
+            P = np.eye(3)[rng.integers(0, 3, size=n)]            # one-hot predictions (integral)
+        calls["compute_affinity"] = lambda Xv, yv: g.compute_affinity(Xv, yv)
+        fitted = {"gemini(P, A)": lambda Xv, yv: list(g(P, K if yv is None else yv, return_grad=True)),
+                  "gemini(P as given, A)": lambda Xv, yv: g(Xv, K)}
+    else:
+        if name == "Kauri":
+            kw = dict(max_clusters=3, random_state=seed)
+            cfg = dict(kernel="precomputed" if y is not None else fn)
+        elif name == "KernelRIM":
+            kw = dict(n_clusters=2, max_iter=2, learning_rate=0.01, random_state=seed)
+            cfg = dict(base_kernel=fn, base_kernel_params=ps)
+        else:
+            kw = dict(n_clusters=2, max_iter=2, learning_rate=0.01, random_state=seed, n_hidden_dim=3, alpha=0.3,
+                      batch_size=None if rng.random() < 0.5 else int(rng.integers(3, n + 2)))
+            spec = {fa: "precomputed"} if y is not None else {fa: fn, pa: ps}
+            cfg = dict(gemini=(G.WassersteinGEMINI if wass else G.MMDGEMINI)(**spec)) if name in GEN_EST else spec
+        calls, fitted_calls = entry_calls(name, cfg, kw, d)
+        fitted = fitted_calls(X, y)
+    replay["entry_points"] = sorted(calls) + sorted(fitted)
+    vary = [("X", v, X) for v in representations(X)] + ([("y", v, K) for v in representations(K)] if y is not None else [])
+    nvar = 0
+    for ep, call in list(calls.items()) + list(fitted.items()):
+        if ep == "gemini(P as given, A)":
+            ref = observe(lambda: call(P, None))
+            todo = [("P", v, P) for v in representations(P) if v[0] not in ("list", "tuple")]
+        else:
+            ref = observe(lambda: call(X, y))
+            todo = vary if ep != "gemini(P, A)" else [t for t in vary if t[0] == "y" and t[1][0] not in ("list", "tuple")]
+        if ref[0] != "ok":
+            observe_or_fail(chk, f"repr:{name}.{ep}:reference", f"{name}.{ep} raised {ref} on the float64 C-contiguous reference input", replay)
+            continue
+        for which, (label, obj), orig in todo:
+            before = snapshot(obj)
+            if ep == "gemini(P as given, A)":
+                got = observe(lambda: call(obj, None))
+            else:
+                got = observe(lambda: call(obj if which == "X" else X, obj if which == "y" else y))
+            # float32 inputs: the values are exactly representable, but a float32 matrix is also *processed* in single precision
+            # (affinity / N**2, pairwise kernels on float32 data): float32 resolution there, full precision everywhere else
+            tol = 2e-5 if label == "float32" and (which in ("y", "P") or spelling == "named") else 1e-12
+            if label == "float32" and ep == "path":
+                tol = 2e-3      # path() keeps float32 data (fit converts to float64): single-precision affinities, and a vanishing MMD is a square root
+            nvar += 1
+            if not agree(ref, got, tol):
+                observe_or_fail(chk, f"repr:{name}.{ep}:{which}-{label}", f"{name}.{ep}: {which} given as {label} gives {str(got)[:160]} instead of the float64 C-contiguous result {str(ref)[:120]}",
+                                dict(replay, entry=ep, varied=which, representation=label))
+            if not unchanged(before, obj):
+                observe_or_fail(chk, f"repr:{name}.{ep}:argument-modified", f"{name}.{ep} modified its argument {which} ({label})", dict(replay, entry=ep, varied=which, representation=label))
+    chk.dist[f"repr:{name.split(':')[0]}:{spelling}"] += 1
+    chk.dist["repr:variants"] += nvar
+    chk.traces += 1
+    chk.count(("repr", name, spelling, fn, integral, n, d))
+    if i < 1:
+        chk.sample({"stream": "repr", **{k: v for k, v in replay.items() if k not in ("X", "K")}, "variants_compared": nvar})
+
+
+def stream_corners(chk, i, rng):
+    """Degenerate sizes, inclusive interval ends and adversarial floats: named and the equal precomputed matrix still agree
+    through fit / fit_predict / score / path, and raise alike if they raise."""
+    corner_kinds = ["K=1", "n=K", "d=1", "n=1", "batch=n", "batch>n", "duplicates", "negative-zero", "denormal", "huge", "adjacent", "ties",
+                    "min_features=d", "keep_threshold=1"]
+    corner = corner_kinds[i % len(corner_kinds)]
+    pool = MMD_EST + WAS_EST + ["Kauri", "LinearModel", "Kauri"]
+    name = pool[(i // len(corner_kinds) + i) % len(pool)]
+    if corner in ("min_features=d", "keep_threshold=1"):
+        name = ["SparseLinearMMD", "SparseMLPMMD"][i % 2]
+    wass = name in WAS_EST
+    n, d, k = int(rng.integers(6, 12)), int(rng.integers(2, 4)), int(rng.integers(2, 4))
+    bs = None
+    if corner == "K=1":
+        k = 1
+    if corner == "n=K":
+        n = k
+    if corner == "d=1":
+        d = 1
+    if corner == "n=1":
+        n, k = 1, 1
+    X = impl.blobs(rng, n, d, k=3)
+    if corner == "batch=n":
+        bs = n
+    if corner == "batch>n":
+        bs = n + int(rng.integers(1, 5))
+    if corner == "duplicates":
+        X[:] = X[0]
+    if corner == "negative-zero":
+        X = np.where(rng.random(X.shape) < 0.5, -0.0, np.round(X))
+    if corner == "denormal":
+        X = X * 5e-324 * 1e3
+    if corner == "huge":
+        X = X * (1e100 if wass else 1e300)
+    if corner == "adjacent":
+        X = np.where(rng.random(X.shape) < 0.5, 0.3, 0.1 + 0.2) + np.where(rng.random(X.shape) < 0.3, np.spacing(0.3), 0.0)
+    if corner == "ties":
+        X = np.round(X)
+        X[n // 2:] = X[: n - n // 2]
+    X = np.ascontiguousarray(X)
+    fn = "euclidean" if wass else str(rng.choice(["linear", "rbf", "polynomial"]))
+    if wass and rng.random() < 0.5:
+        fn = "cityblock"
+    ps = {"gamma": 0.5} if fn == "rbf" and name != "Kauri" else None
+    with np.errstate(all="ignore"):
+        K = (pairwise_distances if wass else pairwise_kernels)(X, metric=fn, **(ps or {})) if np.all(np.isfinite(X)) else None
+    if K is None or not np.all(np.isfinite(K)):
+        chk.dist["corners:non-finite-affinity-skipped"] += 1     # sklearn itself rejects / overflows: not this property's business
+        chk.count(None)
+        return
+    fa, pa = ("metric", "metric_params") if wass else ("kernel", "kernel_params")
+    seed = int(rng.integers(0, 100))
+    if name == "Kauri":
+        if n < 2:
+            n = 2
+            X, K = np.vstack([X, X + 1.0]), None
+            K = pairwise_kernels(X, metric=fn)
+        kw = dict(max_clusters=k, random_state=seed)
+        named, pre = dict(kernel=fn), dict(kernel="precomputed")
+    else:
+        kw = dict(n_clusters=k, max_iter=2, learning_rate=0.01, random_state=seed, n_hidden_dim=3, alpha=0.3, batch_size=bs)
+        if name in GEN_EST:
+            named, pre = dict(gemini=G.MMDGEMINI(kernel=fn, kernel_params=ps)), dict(gemini=G.MMDGEMINI(kernel="precomputed"))
+        else:
+            named, pre = {fa: fn, pa: ps}, {fa: "precomputed"}
+    replay = {"corner": corner, "estimator": name, "fn": fn, "params": repr(ps), "common": kw, "X": [[repr(v) for v in r] for r in X.tolist()]}
+    ca, fa_ = entry_calls(name, named, kw, d)
+    cb, fb_ = entry_calls(name, pre, kw, d)
+    if corner == "min_features=d":
+        ca["path"] = lambda Xv, yv: (lambda r: list(r[0]) + [np.asarray(v, dtype=float) for v in r[1:]])(impl.make(name, **named, **kw).path(Xv, yv, min_features=d, max_patience=1))
+        cb["path"] = lambda Xv, yv: (lambda r: list(r[0]) + [np.asarray(v, dtype=float) for v in r[1:]])(impl.make(name, **pre, **kw).path(Xv, yv, min_features=d, max_patience=1))
+    if corner == "keep_threshold=1":
+        ca["path"] = lambda Xv, yv: (lambda r: list(r[0]) + [np.asarray(v, dtype=float) for v in r[1:]])(impl.make(name, **named, **kw).path(Xv, yv, alpha_multiplier=3.0, keep_threshold=1.0, min_features=max(1, d - 1), max_patience=1))
+        cb["path"] = lambda Xv, yv: (lambda r: list(r[0]) + [np.asarray(v, dtype=float) for v in r[1:]])(impl.make(name, **pre, **kw).path(Xv, yv, alpha_multiplier=3.0, keep_threshold=1.0, min_features=max(1, d - 1), max_patience=1))
+    Xb, Kb = X.copy(), K.copy()
+    for ep in ca:
+        ra, rb = observe(lambda: ca[ep](X, None)), observe(lambda: cb[ep](X, K))
+        if not agree(ra, rb, 1e-7 if ep == "path" else 1e-9):
+            observe_or_fail(chk, f"corners:{corner}:{name}.{ep}", f"{name}.{ep} at corner {corner}: named {str(ra)[:140]} vs precomputed {str(rb)[:140]}", dict(replay, entry=ep))
+        chk.dist[f"corners:{corner}:{ra[0] if ra[0] == 'ok' else 'raises'}"] += 1
+    ra = observe(lambda: fa_(X, None)["score"](X, None))
+    rb = observe(lambda: fb_(X, K)["score"](X, K))
+    if not agree(ra, rb, 1e-7):
+        observe_or_fail(chk, f"corners:{corner}:{name}.score", f"{name}.score at corner {corner}: named {ra} vs precomputed {rb}", dict(replay, entry="score"))
+    if X.tobytes() != Xb.tobytes() or K.tobytes() != Kb.tobytes():
+        observe_or_fail(chk, f"corners:{name}:argument-modified", f"{name} modified X or the precomputed matrix", replay)
+    chk.traces += 1
+    chk.count(("corner", corner, name, fn))
+    if i < 1:
+        chk.sample({"stream": "corners", **{k_: v for k_, v in replay.items() if k_ != "X"}})
+
+
+def stream_decorated(chk, i, rng):
+    """Must-link / cannot-link decorated models (their own _batchify route) through fit, fit_predict, score and path, with
+    batch_size None / = n / > n / < n: named and precomputed affinities still agree; every argument is left untouched
+    (X, matrices with negative entries or asymmetric, read-only, parameter dictionaries, groups, constraint lists)."""
+    pool = ["LinearMMD", "MLPMMD", "SparseLinearMMD", "SparseMLPMMD", "LinearWasserstein", "MLPWasserstein", "LinearModel", "SparseMLPModel"]
+    name = pool[i % len(pool)]
+    wass = "Wasserstein" in name
+    n, d = int(rng.integers(8, 14)), int(rng.integers(2, 4))
+    bs = [None, n, n + 3, int(rng.integers(2, n))][(i // len(pool)) % 4]
+    X = np.ascontiguousarray(impl.blobs(rng, n, d, k=3) * 0.7)
+    fn = str(rng.choice(["cityblock", "euclidean"] if wass else ["rbf", "polynomial", "sigmoid", "linear"]))
+    ps = {"gamma": 0.4} if fn in ("rbf", "polynomial", "sigmoid") else None
+    K = (pairwise_distances if wass else pairwise_kernels)(X, metric=fn, **(ps or {}))
+    fa, pa = ("metric", "metric_params") if wass else ("kernel", "kernel_params")
+    pairs = rng.permutation(n)[:4].tolist()
+    ml, cl = [[pairs[0], pairs[1]]], [[pairs[2], pairs[3]]]
+    groups = [[0], list(range(1, d))] if (name in impl.SPARSE and d > 1 and rng.random() < 0.5) else None
+    seed = int(rng.integers(0, 100))
+    kw = dict(n_clusters=int(rng.integers(2, 4)), max_iter=2, learning_rate=0.01, random_state=seed, n_hidden_dim=3, alpha=0.3, batch_size=bs, groups=groups)
+    if name in GEN_EST:
+        named, pre = dict(gemini=G.MMDGEMINI(kernel=fn, kernel_params=ps)), dict(gemini=G.MMDGEMINI(kernel="precomputed"))
+    else:
+        named, pre = {fa: fn, pa: ps}, {fa: "precomputed", pa: ps}
+    replay = {"estimator": name, "batch_size": bs, "n": n, "fn": fn, "params": repr(ps), "must_link": ml, "cannot_link": cl, "groups": groups,
+              "common": {k_: v for k_, v in kw.items()}, "X": X.tolist()}
+
+    def new(cfg):
+        e = impl.make(name, **cfg, **kw)
+        impl.add_mlcl_constraint(e, ml, cl)
+        return e
+    Kro = K.copy()
+    Kro.setflags(write=False)
+    args = {"X": X, "K": Kro, "params": ps, "groups": groups, "must_link": ml, "cannot_link": cl}
+    before = {k_: snapshot(v) for k_, v in args.items() if v is not None}
+    eps = {"fit": lambda e, y: list(e.fit(X, y)._get_weights()) + [e.labels_], "fit_predict": lambda e, y: e.fit_predict(X, y),
+           "score": lambda e, y: e.fit(X, y).score(X, y)}
+    if name in impl.SPARSE:
+        eps["path"] = lambda e, y: (lambda r: list(r[0]) + [np.asarray(v, dtype=float) for v in r[1:]])(
+            e.path(X, y, alpha_multiplier=3.0, min_features=max(1, d - 1), max_patience=1))
+    for ep, call in eps.items():
+        ra, rb = observe(lambda: call(new(named), None)), observe(lambda: call(new(pre), Kro))
+        if ra[0] != "ok":
+            observe_or_fail(chk, f"decorated:{name}.{ep}:raises", f"constrained {name}.{ep} with batch_size={bs} (n={n}) raised {ra}", dict(replay, entry=ep))
+        elif not agree(ra, rb, 1e-7 if ep == "path" else 1e-9):
+            observe_or_fail(chk, f"decorated:{name}.{ep}", f"constrained {name}.{ep}, batch_size={bs} (n={n}): named {str(ra)[:120]} vs precomputed {str(rb)[:120]}", dict(replay, entry=ep))
+        for k_, b in before.items():
+            if not unchanged(b, args[k_]):
+                observe_or_fail(chk, f"decorated:{name}.{ep}:argument-modified:{k_}", f"constrained {name}.{ep} modified its argument {k_}", dict(replay, entry=ep))
+    # a precomputed matrix that is asymmetric with negative entries is the user's matrix all the same: untouched, and used as given
+    A = np.round(rng.normal(size=(n, n)), 2)
+    Ab = A.copy()
+    r1 = observe(lambda: new(pre).fit(X, A).score(X, A))
+    if not unchanged(Ab, A):
+        observe_or_fail(chk, f"decorated:{name}:argument-modified:asymmetric", f"{name} modified the asymmetric precomputed matrix it was given", replay)
+    chk.dist[f"decorated:batch={'None' if bs is None else '=n' if bs == n else '>n' if bs > n else '<n'}"] += 1
+    chk.dist["decorated:asymmetric:" + r1[0]] += 1
+    chk.traces += len(eps)
+    chk.count(("decorated", name, bs is None or bs - n, fn, groups is not None))
+    if i < 1:
+        chk.sample({"stream": "decorated", **{k_: v for k_, v in replay.items() if k_ != "X"}})
+
+
 def stream_kauri_missing(chk, i, rng):
     """Whole-fit replay of the refuted statement's witness (F17): Kauri(kernel='precomputed').fit(X) without a matrix."""
     n, d = int(rng.integers(6, 20)), int(rng.integers(2, 4))
@@ -1181,7 +1533,8 @@ def stream_kauri_missing(chk, i, rng):
 
 
 STREAMS = {"ctor": (stream_ctor, 900, 9000), "get_gemini": (stream_get_gemini, 1800, 20000), "registry": (stream_registry, 100, 600),
-           "affinity": (stream_affinity, 2400, 25000), "equal": (stream_equal, 500, 5000), "sequence": (stream_sequence, 420, 5000), "entrypoints": (stream_entrypoints, 170, 2000), "kauri_missing": (stream_kauri_missing, 6, 40)}
+           "affinity": (stream_affinity, 2400, 25000), "equal": (stream_equal, 500, 5000), "sequence": (stream_sequence, 420, 5000), "entrypoints": (stream_entrypoints, 170, 2000), "repr": (stream_repr, 48, 600),
+           "corners": (stream_corners, 84, 840), "decorated": (stream_decorated, 40, 400), "kauri_missing": (stream_kauri_missing, 6, 40)}
 
 
 def main():
